@@ -75,6 +75,13 @@ def check(it, tier):
 def main(tier, only=None):
     t0 = time.time()
     results = runner.run_items(MOD, tier)
+    if not only:
+        # entries masked out by np.where contribute an EXACT zero even when the downstream derivative at the constant is
+        # infinite / NaN (float64 probe at pinned points, reverse mode; see vf/props/pinned_probe.py)
+        from . import pinned_probe
+
+        enga.init()
+        results += [r for r in pinned_probe.run(runner.SEED) if "safe " in r["key"] or "masked" in r["key"]]
     return runner.finish(
         ID, tier, results, t0,
         functions=["autograd.core:make_vjp / make_jvp end_node-is-None zero path", "autograd.tracer:trace 'Output seems independent of input' path", "autograd.tracer:primitive notrace branch", "autograd.tracer:notrace_primitive",
